@@ -32,6 +32,56 @@ Definition pkg_write1 (pkg ann : string) : res (string * string) :=
     | Diverge => Diverge
     end.
 
+(* ---- the path a resource is finally written to (kioutil.DefaultPathAndIndexAnnotation, run by
+   LocalPackageWriter.Write before any check) ---- *)
+
+(* strings.ToLower, ASCII (the harness keeps kinds ASCII) *)
+Definition lower_ascii (c : ascii) : ascii :=
+  let n := N_of_ascii c in
+  if (65 <=? n)%N && (n <=? 90)%N then ascii_of_N (n + 32) else c.
+Fixpoint str_lower (s : string) : string :=
+  match s with
+  | EmptyString => EmptyString
+  | String c s' => String (lower_ascii c) (str_lower s')
+  end.
+
+(* kioutil.CreatePathAnnotationValue("", meta): path.Join("", namespace, lower(kind) + "_" + name + ".yaml") *)
+Definition default_path (ns kind name : string) : string :=
+  join2 ns (str_lower kind ++ "_" ++ name ++ ".yaml").
+
+(* what the writer looks at in a resource: the internal and the legacy path annotation and the index
+   annotation (None = absent), and the metadata the default path is made from *)
+Record pkg_res : Type := mkRes {
+  r_internal : option string;     (* internal.config.kubernetes.io/path *)
+  r_legacy : option string;       (* config.kubernetes.io/path *)
+  r_index : option string;        (* internal.config.kubernetes.io/index *)
+  r_ns : string;
+  r_kind : string;
+  r_name : string
+}.
+
+Definition opt_str (o : option string) : string := match o with Some s => s | None => EmptyString end.
+
+(* CopyLegacyAnnotations (a non-empty value wins over an empty or missing one), then: an internal path
+   annotation that is present (even empty) is kept, otherwise the default path is set *)
+Definition effective_path (r : pkg_res) : string :=
+  let nv := opt_str (r_internal r) in
+  let lv := opt_str (r_legacy r) in
+  if negb (String.eqb nv "") then nv
+  else if negb (String.eqb lv "") then lv
+  else match r_internal r with
+       | Some _ => EmptyString
+       | None => default_path (r_ns r) (r_kind r) (r_name r)
+       end.
+
+(* LocalPackageWriter.Write of one resource into a fresh package: a present-but-empty index annotation
+   is rejected like an empty path; a missing one is defaulted *)
+Definition pkg_write_res (pkg : string) (r : pkg_res) : res (string * string) :=
+  match r_index r with
+  | Some EmptyString => Err
+  | _ => pkg_write1 pkg (effective_path r)
+  end.
+
 (* all the targets of a batch; the first rejected annotation rejects the batch before any file is touched *)
 Fixpoint pkg_targets (pkg : string) (anns : list string) : res (list string) :=
   match anns with
